@@ -14,7 +14,7 @@ pub static DEF: CheckDef = CheckDef {
     id: "C18",
     run,
     replay,
-    rule: "the worker's real standard output (fd 1) is redirected to an in-memory file and read back after every case. (a) hand-assembled snippets that write arbitrary values to 0xFF01/0xFF02 through every store form (LDH (n),A; LD (C),A; LD (HL),r; LD (HL),n; LD (HL+),A; LD (nn),A; LD (nn),SP with nn = 0xFF01; PUSH with SP = 0xFF03) with all four combinations of bit 7 in two consecutive SC values and 64 data values each; (b) proptest programs from the C04 generator with extra serial fragments (interrupt handlers that transmit included), (c) the cache-pressure program of C04, which transmits while the translation area fills up, (d) proptest histories of direct writes to 0xFF01/0xFF02 through the bus. Each is run in three modes: interpreter build instruction-stepped, interpreter build block-stepped, jit build block-stepped. Oracle: the captured bytes must equal, exactly and in order, the value last written to 0xFF01 at the time of each write to 0xFF02 with bit 7 set, computed from the ordered bus-write trace; nothing else may appear on the stream; all three modes must produce the same stream. Non-trivial = case with at least two transmitting writes and at least one non-transmitting write to 0xFF02 or a write to 0xFF01 that is overwritten before being sent; distinct by hash of (case, mode).",
+    rule: "the worker's real standard output (fd 1) is redirected to an in-memory file and read back after every case. (a) hand-assembled snippets that write arbitrary values to 0xFF01/0xFF02 through every store form (LDH (n),A; LD (C),A; LD (HL),r; LD (HL),n; LD (HL+),A; LD (nn),A; LD (nn),SP with nn = 0xFF01; PUSH with SP = 0xFF03) with all four combinations of bit 7 in two consecutive SC values and 64 data values each; (b) proptest programs from the C04 generator with extra serial fragments (interrupt handlers that transmit included), (c) the cache-pressure program of C04, which transmits while the translation area fills up, (d) proptest histories of direct writes to 0xFF01/0xFF02 through the bus. Each is run in three modes: interpreter build instruction-stepped, interpreter build block-stepped, jit build block-stepped. Oracle: the captured bytes must equal, exactly and in order, the value last written to 0xFF01 at the time of each write to 0xFF02 with bit 7 set, computed from the ordered bus-write trace; in the instruction-stepped mode it must also equal the stream the reference CPU (models::sm83 + models::irq on a twin) produces for the same program, which fixes the order of the two bytes of 16-bit stores; nothing else may appear on the stream; all three modes must produce the same stream. Non-trivial = case with at least two transmitting writes and at least one non-transmitting write to 0xFF02 or a write to 0xFF01 that is overwritten before being sent; distinct by hash of (case, mode).",
     assumptions: &[
         "the expected stream is a function of the machine's own ordered bus writes (hook); that those writes are the program's is C01/C04/C05's subject",
         "the loader's messages (printed before a ROM runs) are not part of the stream: machines are built with Core::from_rom_file",
@@ -133,6 +133,30 @@ fn run_one(c: &Case, mode: u8, cap: &mut Capture) -> Result<(Vec<u8>, Vec<u8>, (
         Case::Snippet(_, s) | Case::Program(_, s) | Case::Pressure(_, s) => *s,
         Case::Direct(_) => 0,
     };
+    // Independent expectation for the instruction-stepped mode: the reference CPU
+    // (models::sm83 + models::irq on a twin) says which bytes the program stores to
+    // 0xFF01/0xFF02 and in which order - including the order of the two bytes of a
+    // 16-bit store. Runs before the capture starts (the twin transmits too).
+    let mut model_stream: Option<(Vec<u8>, bool)> = None;
+    if mode == 0 && steps > 0 {
+        let mut r = crate::refmach::RefMachine::new(i::M::new(&rom));
+        let mut ws: Vec<(u16, u8)> = Vec::new();
+        let mut complete = true;
+        for _ in 0..steps {
+            let info = r.step_instruction();
+            if info.out_of_domain.is_some() {
+                complete = false;
+                break;
+            }
+            ws.extend(info.writes.iter().cloned());
+            if let models::irq::Outcome::Dispatched { pushes, .. } = info.irq {
+                ws.extend(pushes.iter().cloned());
+            }
+        }
+        let mut sb = 0u8;
+        let mut st = (0, 0, 0);
+        model_stream = Some((expected_from_writes(&ws, &mut sb, &mut st), complete));
+    }
     m.trace_enable(true);
     let _ = m.trace_take();
     cap.start();
@@ -167,6 +191,15 @@ fn run_one(c: &Case, mode: u8, cap: &mut Capture) -> Result<(Vec<u8>, Vec<u8>, (
     let mut sb = 0u8;
     let mut stats = (0, 0, 0);
     let want = expected_from_writes(&writes, &mut sb, &mut stats);
+    if let Some((ms, complete)) = model_stream {
+        let ok = if complete { got == ms } else { got.starts_with(&ms) };
+        if !ok {
+            return Err(Fail::new(
+                "program-order",
+                format!("instruction-stepped interpreter: standard output carries {}, the reference CPU executing the same program transmits {}", describe(&got), describe(&ms)),
+            ));
+        }
+    }
     Ok((got, want, stats))
 }
 
